@@ -41,11 +41,17 @@ MathRefusal(ev, name) ==
     /\ Explain(ev.cb = 1 /\ ev.cat = "MATH", <<l, name, "cb", "one MATH callback">>)
     /\ Explain(ev.one = 1, <<l, name, "one", "single-line message">>)
 
+(* every executed case names its value class; the contract is the same    *)
+(* for all of them (LinSys.tla, ValueClasses)                              *)
+KnownValueClass(ev) ==
+    Explain(IsValueClass(ev.vc), <<l, ev.e, "vc", ValueClasses>>)
+
 TMark == TraceLog[l].e \in {"Reset", "End"}
 
 TConv ==
     LET ev == TraceLog[l]
     IN /\ ev.e = "Conv"
+       /\ KnownValueClass(ev)
        /\ IF Singular(ev)
           THEN Explain(ev.fin = 0 \/ ev.huge = 1,
                        <<l, "Conv", "standsout", "non-finite or huge output">>)
@@ -56,6 +62,7 @@ TConv ==
 TApplyAB ==
     LET ev == TraceLog[l]
     IN /\ ev.e = "ApplyAB"
+       /\ KnownValueClass(ev)
        /\ Explain(ev.setup = 1, <<l, "ApplyAB", "setup", 1>>)
        /\ IF ExactlySingular(ev)
           THEN MathRefusal(ev, "ApplyAB")
@@ -67,6 +74,7 @@ TApplyAB ==
 TAddAB ==
     LET ev == TraceLog[l]
     IN /\ ev.e = "AddAB"
+       /\ KnownValueClass(ev)
        /\ IF ExactlySingular(ev)
           THEN Explain(\/ (ev.addok = 0 /\ ev.adderr = "EDOM" /\ ev.addcb = 1)
                        \/ (ev.addok = 1 /\ ev.solveok = 0 /\
@@ -82,6 +90,7 @@ TSolve ==
         z  == IF ev.zero = 1 THEN {2, 3} ELSE {}
         c  == TallClass(ev.m, ev.n, ev.rowmap, z)
     IN /\ ev.e = "Solve"
+       /\ KnownValueClass(ev)
        /\ Explain(ev.stage = 2, <<l, "Solve", "stage", "standards accepted">>)
        /\ IF TallMustRefuse(ev.m, ev.n, ev.rowmap, z)
           THEN MathRefusal(ev, "Solve")
@@ -101,6 +110,7 @@ TApplyM ==
     LET ev == TraceLog[l]
         unscaled == \A i \in 1..Len(ev.sc) : ev.sc[i] = 0
     IN /\ ev.e = "ApplyM"
+       /\ KnownValueClass(ev)
        /\ (unscaled \/ ev.det = "exact") =>
              /\ Explain(ev.setup = 1, <<l, "ApplyM", "setup", 1>>)
              /\ Explain(ev.ok = 1 /\ ev.cb = 0, <<l, "ApplyM", "ok", 1>>)
